@@ -56,9 +56,49 @@ def loop_item(rng, n_items, par, outcomes, with_alt=False, delays=None, extra_co
             'at': 'n=%d par=%s %s' % (n_items, par, ','.join(outcomes[:6]))}
 
 
+def nested_loop_item(rng, outer_n, inner_outs, par=2):
+    """a loop whose items are themselves loops (three levels of engine runs): the outer loop succeeds only if every inner
+    loop does, and every level reports its own items in order"""
+    inner_n = len(inner_outs)
+    it = loop_item(rng, outer_n, par, ['success'] * outer_n)
+    it['wf']['steps']['loop']['workflow'] = 'mid.yaml'
+    mid = {'input_schema': SUB_INPUT,
+           'steps': {'inner': {'kind': 'foreach', 'workflow': 'leaf.yaml',
+                               'fields': {'items': lit([{'id': 'k%d' % k} for k in range(inner_n)]), 'parallelism': lit(par)}},
+                     'tag': {'kind': 'plugin', 'pstep': 'work', 'src': 'w', 'fields': {'input': tmap({'id': ref('input.id')})}}},
+           'outputs': {'success': tmap({'tok': ref('steps.tag.outputs.success.tok'), 'inner': ref('steps.inner.outputs.success.data')})}}
+    it['subwfs'] = {'mid.yaml': mid, 'leaf.yaml': sub_wf(False)}
+    by_id = it['script']['w']['exec_by_id']
+    for k, o in enumerate(inner_outs):
+        by_id['k%d' % k] = {'out': o if o != 'crash' else 'success', 'crash': o == 'crash', 'delay_ms': rng.choice([0, 2, 5]), 'n': k}
+    allok = all(o == 'success' for o in inner_outs)
+    it['oc'] = {'loop': {'enabled': True, 'beh': 'success' if allok else 'failed'}}
+    it['expect_items'] = {'loop': ['success' if allok else 'fail'] * outer_n}
+    it['at'] = 'nested outer=%d inner=%s' % (outer_n, ','.join(inner_outs))
+    return it
+
+
+def computed_items_item(rng):
+    """the item list is built by expressions (a producer's output, the workflow input, a literal), not written out"""
+    it = loop_item(rng, 3, 2, ['success'] * 3)
+    it['wf']['steps']['pre'] = {'kind': 'plugin', 'pstep': 'work', 'src': 'pre', 'fields': {'input': tmap({'id': lit('pre')})}}
+    it['wf']['steps']['loop']['fields']['items'] = tlist([tmap({'id': ref('steps.pre.outputs.success.tok')}), tmap({'id': ref('input.x')}), tmap({'id': lit('i2')})])
+    it['script']['pre'] = {'exec': {'out': 'success', 'delay_ms': 5}}
+    it['script']['w']['exec_by_id'] = {}
+    it['oc']['pre'] = okoc()
+    it['at'] = 'computed items'
+    return it
+
+
 def items_for(ctx):
     def f(rng):
         items = []
+        items.append(nested_loop_item(rng, 2, ['success', 'success']))
+        items.append(nested_loop_item(rng, 2, ['success', 'error']))
+        items.append(computed_items_item(rng))
+        if not ctx.quick:
+            items.append(nested_loop_item(rng, 3, ['success', 'crash', 'success'], par=1))
+            items.append(nested_loop_item(rng, 1, ['success'] * 4, par=3))
         sizes = [0, 1, 2, 3, 5] if ctx.quick else [0, 1, 2, 3, 4, 5, 8, 13, 30, 80, 200]
         for n in sizes:
             for par in ([1, 2] if ctx.quick else [1, 2, 3, 7]):
